@@ -56,6 +56,14 @@ theorem introspectables_reach_their_action :
     (∀ p ∈ directives.zip specDirectives, actsOk p.1 p.2 = true) ∧ (∀ d ∈ directives, allReach d = true) := by
   decide +kernel
 
+/-- **every_directive_records_its_call_site** — every body that builds an introspectable is reached from the
+specified public directives only (plus pyramid's own, exempt, call sites), and every one of those directives
+carries `@action_method`: the outermost wrapper is the one whose `traceback.extract_stack` frame becomes the
+`action_info` of the introspectables, so it must be the method the statement calls.  (Reverting any hunk of
+4633e93 — `add_permission`, `add_cache_buster`, `add_tween` — gives an entry with `false`.) -/
+theorem every_directive_records_its_call_site :
+    ∀ p ∈ directives.zip specDirectives, entriesOk p.1 p.2 = true := by decide +kernel
+
 /-- The `introspection` flag: the constructor stores it (default `True`), `Configurator.action` drops the
 introspectables when it is off before either use, `include` and `with_package` hand it to the configurator
 they create (F-C20b reverted gives `"absent"`), `execute_actions` registers the introspectables after the
